@@ -277,7 +277,8 @@ def run(prop, tier, seed, replay=None):
             if res.get("crash") and starved and uses_limit:
                 # the Go runtime itself was refused memory while the scenario had the address-space limit lowered (or held
                 # 4 GiB of mappings): the driver died, the store did nothing wrong
-                raise Internal("scenario %s: the runtime ran out of address space under the scenario's own limit:\n%s" % (sid, st[:600]))
+                v.warn("scenario %s gave no verdict: the Go runtime ran out of address space under the scenario's own limit (%s)" % (sid, st.strip().splitlines()[0][:120]))
+                continue
             props = props_of_crash(st) if res.get("crash") else {"C03"}
             if prop in props:
                 v.violation(kind, "the process %s while replaying scenario %s: %s" % (
